@@ -23,7 +23,7 @@ RULE = ("inner queries (joins, aliased terms outside the select list, GROUP BY/H
         "11 embedding positions x 6 classes x inline/parameterised. Non-trivial = the inner query has an aliased term outside its select list, or is "
         "itself nested, or is a set operation; distinct = distinct (inner program, position, class, mode).")
 ASSUMPTIONS = [
-    "brackets are required around the inner query at every position except INSERT..SELECT and MySQL set-operation operands",
+    "brackets are required around the inner query at every position except INSERT..SELECT and MySQL / SQLite set-operation operands (their grammars have no bracketed operands)",
     "the automatic alias sqN is assigned at embedding time; the stand-alone rendering never prints it",
     "the stand-alone rendering is taken under the same class context as the outer statement",
 ]
@@ -159,7 +159,7 @@ def check(case, pos, par):
             p["steps"] = inner["steps"] + [["union_all", [["q", other]]]]
         else:
             p = {"cls": cls, "sources": src, "steps": other["steps"] + [["union_all", [["q", inner]]]]}
-        need_parens = cls != "mysql"
+        need_parens = cls not in ("mysql", "sqlite")
         alias = None
     else:
         p = outer_program(cls, pos, inner, case["alias"])
@@ -234,7 +234,7 @@ def valid_case(case):
     try:
         prog.build_program(dict(case["inner"], cls=case["cls"], sources=dict(gen.SOURCES, **OUT)))
         return case["pos"] in POSITIONS and case["cls"] in CTXS
-    except Exception:
+    except (Exception, HarnessError):
         return False
 
 
